@@ -59,6 +59,9 @@ EPS = kf.EPS
 PI = math.pi
 TWOPI = 2.0 * math.pi
 C_TOL = 100.0
+# per-comparison constants = ~100 x the worst (error / first-order bound) seen in calibration (7.2e4 stub cases, 1.3e6 comparisons;
+# worst ratios: turns 0.46, wrap 0.12, perm 7.9 [LU inverse of a permuted, unequilibrated S], reference 0.05)
+C_KIND = {"turns": 100.0, "wrap": 16.0, "perm": 1000.0, "reference": 100.0}
 DECIDE_REL = 1e-3
 ULP_2PI = float(np.spacing(TWOPI))
 
@@ -295,10 +298,18 @@ class _Snap:
     __slots__ = ("x", "p", "k", "s", "c", "nu", "ang", "ybar", "yres", "xres", "sp", "pred_x", "pred_p")
 
 
-def _update(f, pres, obs):
-    """Restore the predicted state from the repository's own result object and run the real update."""
-    f.applyFilterResult(pres)
-    f.update(obs)
+def _update(f, pres, obs, ctx=None, w=None, what="update"):
+    """Restore the predicted state from the repository's own result object and run the real update.
+
+    An exception on admissible input is a violation whose mechanism is the exception type (returns None)."""
+    try:
+        f.applyFilterResult(pres)
+        f.update(obs)
+    except Exception as e:  # noqa: BLE001
+        if ctx is None:
+            raise
+        ctx.check(False, f"filter-raised-{type(e).__name__}", f"{what}: update raised {type(e).__name__}: {e}"[:300], w, mon="filter_no_exception")
+        return None
     s = _Snap()
     s.x, s.p = np.array(f.est_x, dtype=float), np.array(f.est_p, dtype=float)
     s.k, s.s, s.c = np.array(f.kalman_gain, dtype=float), np.array(f.innov_cvr, dtype=float), np.array(f.cross_cvr, dtype=float)
@@ -315,7 +326,7 @@ def _scales(b):
     return dx, dy
 
 
-def _bounds(b, wm, wc, d_sig, d_meas, e_rows=None):
+def _bounds(b, wm, wc, d_sig, d_meas, e_rows=None, kind="reference"):
     """First-order effect on the posterior of perturbing every angular sigma measurement by d_sig (rad) and every measured angle
     by d_meas (rad).  Everything is evaluated in equilibrated coordinates (state / sqrt(diag pred_p), measurement / sqrt(diag S))
     so that mixed units do not masquerade as ill-conditioning; the returned bounds are for the equilibrated differences."""
@@ -359,8 +370,9 @@ def _bounds(b, wm, wc, d_sig, d_meas, e_rows=None):
     d_p = 2 * d_k * ns * nk + nk * nk * d_s + 4 * (m + n + 2) * EPS * (_n2(b.pred_p * np.outer(dx, dx)) + nk * nk * ns)
     upd_p = _n2(k_ @ s_ @ k_.T)
     upd_x = max(float(np.linalg.norm(k_ @ nu_)), math.sqrt(max(upd_p, 0.0)))
-    decided = C_TOL * d_p <= DECIDE_REL * max(upd_p, 1e-300) and C_TOL * d_x <= DECIDE_REL * max(upd_x, 1e-300)
-    return {"x": d_x, "p": d_p, "nu": d_nu, "decided": decided, "dx": dx, "dy": dy, "upd_x": upd_x, "upd_p": upd_p, "negw": bool(wm[0] < 0), "w1": w1}
+    ck = C_KIND[kind]
+    decided = ck * d_p <= DECIDE_REL * max(upd_p, 1e-300) and ck * d_x <= DECIDE_REL * max(upd_x, 1e-300)
+    return {"x": d_x, "p": d_p, "nu": d_nu, "decided": decided, "dx": dx, "dy": dy, "upd_x": upd_x, "upd_p": upd_p, "negw": bool(wm[0] < 0), "w1": w1, "c": ck}
 
 
 def _compare(ctx, name, mon, key, what, w, b, v, bd, perm=None):
@@ -376,11 +388,11 @@ def _compare(ctx, name, mon, key, what, w, b, v, bd, perm=None):
     ex, ep = _mx(dx * (v.x - b.x)), _mx((v.p - b.p) * np.outer(dx, dx))
     _track(ctx, name + "_x", ex, bd["x"])
     _track(ctx, name + "_p", ep, bd["p"])
-    ctx.check(ex <= C_TOL * bd["x"], key, f"{what}: est_x changed by {ex:.3e} prior sigmas (rounding bound {C_TOL * bd['x']:.3e}, update size {bd['upd_x']:.3e})", w, mon=mon)
-    ctx.check(ep <= C_TOL * bd["p"], key, f"{what}: est_p changed by {ep:.3e} of the prior variance (rounding bound {C_TOL * bd['p']:.3e}, update size {bd['upd_p']:.3e})", w, mon=mon)
+    ctx.check(ex <= bd["c"] * bd["x"], key, f"{what}: est_x changed by {ex:.3e} prior sigmas (rounding bound {bd["c"] * bd['x']:.3e}, update size {bd['upd_x']:.3e})", w, mon=mon)
+    ctx.check(ep <= bd["c"] * bd["p"], key, f"{what}: est_p changed by {ep:.3e} of the prior variance (rounding bound {bd["c"] * bd['p']:.3e}, update size {bd['upd_p']:.3e})", w, mon=mon)
     nu_b, dy_b = (b.nu, dy) if perm is None else (b.nu[perm], dy[perm])
     en = _mx((v.nu - nu_b) * dy_b)
-    ctx.check(en <= C_TOL * bd["nu"], key, f"{what}: innovation changed by {en:.3e} innovation sigmas (bound {C_TOL * bd['nu']:.3e})", w, mon=mon)
+    ctx.check(en <= bd["c"] * bd["nu"], key, f"{what}: innovation changed by {en:.3e} innovation sigmas (bound {bd["c"] * bd['nu']:.3e})", w, mon=mon)
     return True
 
 
@@ -415,7 +427,10 @@ def _row_mean_error(theta, wm, low):
     s_ = len(theta)
     wn = wm / np.linalg.norm(wm)
     out = 0.0
-    for arg, d_arg in ((theta - low, (2.0 * EPS * (np.abs(theta) + abs(low)) if low != 0.0 else np.zeros(s_))), (theta, np.zeros(s_))):
+    # repository path: arg = (theta - low) * TWOPI / (high - low): one rounding for the shift (low != 0), two for the scale/unscale
+    arg_repo = theta - low
+    d_repo = 2.0 * EPS * np.abs(arg_repo) + (2.0 * EPS * (np.abs(theta) + abs(low)) if low != 0.0 else 0.0)
+    for arg, d_arg in ((arg_repo, d_repo), (theta, np.zeros(s_))):
         sn, cs = np.sin(arg), np.cos(arg)
         aw = np.abs(wn)
         ds = float(np.dot(aw, np.abs(cs) * d_arg + (s_ + 2) * EPS * np.abs(sn)))
@@ -596,7 +611,9 @@ def run_stub(ctx, spec, only=None):
     pres = f.getPredictionResult()
     ospecs = spec["obs"]
     rng = np.random.default_rng([int(abs(spec["x0"][0]) * 1e6) % (2 ** 31), n, len(ospecs)])
-    base = _update(f, pres, _mk_obs(ospecs))
+    base = _update(f, pres, _mk_obs(ospecs), ctx, {**spec, "variant": {"type": "base"}}, "base update")
+    if base is None:
+        return {"decided": 0, "seam": 0}
     r = _blk([np.array(o["R"], dtype=float) for o in ospecs])
     y = np.concatenate([np.array(o["y"], dtype=float) for o in ospecs])
     w0 = dict(spec)
@@ -619,10 +636,12 @@ def run_stub(ctx, spec, only=None):
             o2[j]["y"][i] = ospecs[j]["y"][i] + k * TWOPI
             d_meas += 2 * float(np.spacing(abs(o2[j]["y"][i]) + TWOPI))
         wv = {**w0, "variant": {"type": "turns", "k": [int(k) for k in ks]}}
-        v = _update(f, pres, _mk_obs(o2))
+        v = _update(f, pres, _mk_obs(o2), ctx, wv, "measured angles + 2*pi*k")
+        if v is None:
+            continue
         _chk_innovation(ctx, wv, "measured angles + 2*pi*k", v)
         if _compare(ctx, "turns", "turn_invariance", "posterior-changes-with-full-turns", f"adding 2*pi*{[int(k) for k in ks]} to the measured angles", wv, base, v,
-                    _bounds(base, wm, wc, 0.0, d_meas)):
+                    _bounds(base, wm, wc, 0.0, d_meas, kind="turns")):
             stats["decided"] += 1
     # ---- wrap point -----------------------------------------------------------------------------
     spread = min([c["spread"] for o in ospecs for c in o["comps"] if c["t"] == "ang"] or [1e-3])
@@ -642,7 +661,9 @@ def run_stub(ctx, spec, only=None):
             o2 = _wrap_variant(ospecs, place, d, rng)
         a_mag = max([abs(c["phi"]) + abs(c["cut"]) for o in o2 for c in o["comps"] if c["t"] == "ang"] or [0.0]) + TWOPI + PI
         wv = {**w0, "variant": {"type": "wrap", "place": place, "delta": d, "obs": o2}}
-        v = _update(f, pres, _mk_obs(o2))
+        v = _update(f, pres, _mk_obs(o2), ctx, wv, f"wrap point moved ({place}, delta={d})")
+        if v is None:
+            continue
         _chk_innovation(ctx, wv, f"wrap point moved ({place}, delta={d})", v)
         key = {"pm-pi-seam": "posterior-changes-at-pm-pi-seam", "zero-seam": "posterior-changes-at-0-2pi-seam", "zero-centre": "posterior-changes-with-wrap-interval",
                "flag-swap": "posterior-changes-with-angle-flag", "arbitrary": "posterior-changes-with-wrap-cut"}[place]
@@ -655,7 +676,7 @@ def run_stub(ctx, spec, only=None):
             _reference_check(ctx, wv, f"update with the target on the {'+-pi' if seam else '0/2pi'} seam (delta={d:+.1e})", v, _mk_obs(o2), wm, wc, r2, y2)
             ctx.count("seam_straddling_updates_checked_against_reference")
         if _compare(ctx, "wrap", "wrap_point_invariance", key, f"moving the wrap point ({place}, target at {d:+.1e} rad from the seam/centre"
-                    f"{', sigma points straddle the seam' if on_seam else ''})", wv, base, v, _bounds(base, wm, wc, 2 * EPS * a_mag, 2 * EPS * a_mag)):
+                    f"{', sigma points straddle the seam' if on_seam else ''})", wv, base, v, _bounds(base, wm, wc, 2 * EPS * a_mag, 2 * EPS * a_mag, kind="wrap")):
             stats["decided"] += 1
             if on_seam:
                 stats["seam"] += 1
@@ -673,10 +694,12 @@ def run_stub(ctx, spec, only=None):
             perms = [tuple(only["order"])]
         else:
             perms = []
-        bd = _bounds(base, wm, wc, 0.0, 0.0)
+        bd = _bounds(base, wm, wc, 0.0, 0.0, kind="perm")
         for p in perms:
             wv = {**w0, "variant": {"type": "perm", "order": [int(q) for q in p]}}
-            v = _update(f, pres, _mk_obs([ospecs[q] for q in p], prefix="p"))
+            v = _update(f, pres, _mk_obs([ospecs[q] for q in p], prefix="p"), ctx, wv, f"observation order {list(p)}")
+            if v is None:
+                continue
             idx = np.array([q for jj in p for q in rows[jj]], dtype=int)
             _chk_innovation(ctx, wv, f"observation order {list(p)}", v)
             if _compare(ctx, "perm", "order_invariance", "posterior-changes-with-observation-order", f"stacking the observations in order {list(p)}", wv, base, v, bd, perm=idx):
@@ -755,9 +778,11 @@ def run_real(ctx, spec, only=None):
         return obs
 
     obs = build()
-    base = _update(f, pres, obs)
     w0 = dict(spec)
     stats = {"decided": 0, "seam": 0}
+    base = _update(f, pres, obs, ctx, {**w0, "variant": {"type": "base"}}, "real-geometry update")
+    if base is None:
+        return stats
     _chk_innovation(ctx, {**w0, "variant": {"type": "base"}}, "real-geometry update", base)
     r = _blk([np.array(o.r_matrix, dtype=float) for o in obs])
     y = np.concatenate([np.array(o.measurement_states, dtype=float) for o in obs])
@@ -776,10 +801,12 @@ def run_real(ctx, spec, only=None):
         o2 = build(ks)
         d_meas = sum(2 * float(np.spacing(abs(k) * TWOPI + 2 * TWOPI)) for k in ks)
         wv = {**w0, "variant": {"type": "turns", "k": [int(k) for k in ks]}}
-        v = _update(f, pres, o2)
+        v = _update(f, pres, o2, ctx, wv, "real geometry, measured angles + 2*pi*k")
+        if v is None:
+            continue
         _chk_innovation(ctx, wv, "real geometry, measured angles + 2*pi*k", v)
         if _compare(ctx, "turns", "turn_invariance", "posterior-changes-with-full-turns", f"real geometry: adding 2*pi*{[int(k) for k in ks]} to measured az/el", wv, base, v,
-                    _bounds(base, wm, wc, 0.0, d_meas)):
+                    _bounds(base, wm, wc, 0.0, d_meas, kind="turns")):
             stats["decided"] += 1
     if len(obs) > 1:
         rows, k0 = [], 0
@@ -791,11 +818,13 @@ def run_real(ctx, spec, only=None):
             perms = [p for p in itertools.permutations(range(len(obs))) if p != tuple(range(len(obs)))]
         else:
             perms = [tuple(only["order"])] if only["type"] == "perm" else []
-        bd = _bounds(base, wm, wc, 0.0, 0.0)
+        bd = _bounds(base, wm, wc, 0.0, 0.0, kind="perm")
         for p in perms:
             wv = {**w0, "variant": {"type": "perm", "order": [int(q_) for q_ in p]}}
             ob_all = build()
-            v = _update(f, pres, [ob_all[q_] for q_ in p])
+            v = _update(f, pres, [ob_all[q_] for q_ in p], ctx, wv, f"real geometry, observation order {list(p)}")
+            if v is None:
+                continue
             idx = np.array([q_ for jj in p for q_ in rows[jj]], dtype=int)
             _chk_innovation(ctx, wv, f"real geometry, observation order {list(p)}", v)
             if _compare(ctx, "perm", "order_invariance", "posterior-changes-with-observation-order", f"real geometry: stacking the observations in order {list(p)}", wv, base, v, bd, perm=idx):
@@ -807,7 +836,7 @@ def run_real(ctx, spec, only=None):
 # =============================================================================================
 def run(ctx):
     rng = ctx.rng("c16")
-    n_help = ctx.scale(40_000, 4_000_000)
+    n_help = ctx.scale(32_000, 3_200_000)
     for i in range(n_help):
         sel = i % 4
         if sel < 2:
